@@ -52,6 +52,11 @@ func (h *hist) merge(to, from *model.Node, pol model.Policy) {
 			}
 			for _, v := range to.A {
 				h.shifted[v] = h.stepNo
+				for _, x := range h.handles {
+					if model.Reachable(v, x.n) {
+						h.res.Ev("handles_of_elements_moved_by_prepend", 1)
+					}
+				}
 			}
 			to.A = append(na, to.A...)
 			to.HasA = true
